@@ -16,14 +16,15 @@ import json, os, glob, collections
 from harness.lib import oracle as O, cvgen as CG, cvcheck as CK
 from harness.lib import cvgen2 as CG2, cvcheck2 as CK2      # alternative-splicing / circRNA streams
 from harness.props import c01 as C01
+from harness.lib import cvgen_fus as CF
 
 PROPERTY = 'C02'
 ROOT = os.path.dirname(os.path.dirname(os.path.dirname(os.path.abspath(__file__))))
 
 def sizes(ctx):
     if ctx.quick:
-        return dict(core=260, excon=110, nola=30, wide=24, retry=90, flags=50, fusion=70, altsplice=400, circ=250, graph=300)
-    return dict(core=15000, excon=6000, nola=800, wide=800, retry=3000, flags=3000, fusion=3000, altsplice=4000, circ=3000, graph=6000)
+        return dict(core=260, excon=110, nola=30, wide=24, retry=90, flags=50, fusion=70, altsplice=400, circ=250, graph=300, fuscirc=20)
+    return dict(core=15000, excon=6000, nola=800, wide=800, retry=3000, flags=3000, fusion=3000, altsplice=4000, circ=3000, graph=6000, fuscirc=600)
 
 def limited(rng, base):
     return dict(base, mvpn=rng.choice([1, 2, 3, 7]), avpm=rng.choice([0, 1, 2]),
@@ -63,9 +64,14 @@ def gen_cases(ctx):
         cases.append(c)
     # fusion transcripts (Model/SpecFusion.v): donor[:bp] ++ acceptor[bp':], exonic breakpoints
     for i in range(n.get('fusion', 0)):
-        c = CG.gen_fusion_case(rng)
+        c = CF.gen_fusion_case2(rng)
         c['runs'] = [limited(rng, CG.gen_run(rng, rule='trypsin' if rng.random() < 0.7 else la_other[i % len(la_other)], exc_on=False))]
         c['stream'] = 'fusion'
+        cases.append(c)
+    for i in range(n.get('fuscirc', 0)):
+        c = CF.gen_fusion_circ_case(rng)
+        c['runs'] = [limited(rng, CG.gen_run(rng, rule='trypsin', exc_on=False))]
+        c['stream'] = 'fuscirc'
         cases.append(c)
     # retry clause: the first n attempts of every transcript are made to time out (inside the worker only)
     for i in range(n.get('retry', 0)):
@@ -112,6 +118,8 @@ def judge(evs, violations, stats):
         if ev.exc:
             if st == 'retry' and ev.run.get('force_timeouts') is not None and ev.exc['__exc__'] == 'ValueError':
                 pass                                 # judged against the model of caller_reducer in judge_retry
+            elif CK.is_fusion_align_crash(ev):
+                stats['fusion_align_crash'] += 1     # nothing is emitted: C01 owns the finding
             elif CK.is_fusion_crash(ev):
                 stats['fusion_crash'] += 1           # nothing is emitted: C01 owns the finding
             else:
